@@ -32,6 +32,7 @@ def rule_selftest(ctx, cfg, label, which=None, rule='selftest'):
         'E1-kind': (lambda: R.rule_E1(c2, prog, label, only_funcs={'m4lint_ctl_E1_kind'}), 'm4lint_ctl_E1_kind'),
         'E3': (lambda: NC.rule_E3(c2, prog, label), 'm4lint_ctl_E3'),
         'C1': (lambda: M.rule_C1(c2, prog, label, only={'m4lint_ctl_C1'}), 'm4lint_ctl_C1'),
+        'MV1': (lambda: M.rule_MV1(c2, prog, label, placers=('m4lint_ctl_MV1',)), 'm4lint_ctl_MV1'),
         'S1': (lambda: M.rule_S1(c2, prog, label), 'm4lint_ctl_S1'),
         'G1': (lambda: G.rule_G1(c2, prog, label), 'm4lint_ctl_G1'),
         'B7p': (lambda: BF.rule_B7p(c2, prog, label), 'm4lint_ctl_B7p'),
